@@ -49,6 +49,8 @@ def run(ctx):
     ctx.do(rule_no_hidden_state, "C06.history-independence")
     from .pitfalls import rule_loops_not_cut_short
     ctx.do(rule_loops_not_cut_short, "C06.loops-complete")
+    from .pitfalls import rule_definite_assignment
+    ctx.do(rule_definite_assignment, "C06.definite-assignment")
 
 
 def rule_table(ctx):
